@@ -4,7 +4,8 @@ package main
 // spellings of one construct to the form the engines are written for, so that
 // a behaviour-preserving change of spelling does not change a verdict:
 //
-//   * the index-loop idiom over an unmodified local slice,
+//   * "for { if C { break }; rest }" becomes "for !C { rest }";
+//   * the index-loop idiom over an unmodified slice (a local, or a field that nothing in the body can replace),
 //       for i := 0; i < len(xs); i++ { x := xs[i]; ... }
 //     becomes  for i, x := range xs { ... }  (in memory only); when xs is a
 //     snapshot taken by the immediately preceding statement (xs := E with E a
@@ -18,6 +19,7 @@ import (
 	"go/ast"
 	"go/token"
 	"go/types"
+	"strings"
 )
 
 func (p *Prog) normalizeAST() int {
@@ -38,6 +40,44 @@ func (p *Prog) normalizeAST() int {
 	return n
 }
 
+// loopWithLeadingBreak: "for { if C { break }; rest }" is "for !C { rest }".
+func (p *Prog) loopWithLeadingBreak(fs *ast.ForStmt) bool {
+	if fs.Init != nil || fs.Cond != nil || fs.Post != nil || len(fs.Body.List) == 0 {
+		return false
+	}
+	is, ok := fs.Body.List[0].(*ast.IfStmt)
+	if !ok || is.Init != nil || is.Else != nil || len(is.Body.List) != 1 {
+		return false
+	}
+	br, ok := is.Body.List[0].(*ast.BranchStmt)
+	if !ok || br.Tok != token.BREAK || br.Label != nil {
+		return false
+	}
+	boolT := types.TypeAndValue{Type: types.Typ[types.Bool]}
+	var cond ast.Expr
+	switch c := unparen(is.Cond).(type) {
+	case *ast.UnaryExpr:
+		if c.Op == token.NOT {
+			cond = c.X
+		}
+	case *ast.BinaryExpr:
+		flip := map[token.Token]token.Token{token.LSS: token.GEQ, token.GEQ: token.LSS, token.GTR: token.LEQ, token.LEQ: token.GTR, token.EQL: token.NEQ, token.NEQ: token.EQL}
+		if op, ok := flip[c.Op]; ok {
+			nb := &ast.BinaryExpr{X: c.X, OpPos: c.OpPos, Op: op, Y: c.Y}
+			p.Info.Types[nb] = boolT
+			cond = nb
+		}
+	}
+	if cond == nil {
+		nu := &ast.UnaryExpr{OpPos: is.Cond.Pos(), Op: token.NOT, X: is.Cond}
+		p.Info.Types[nu] = boolT
+		cond = nu
+	}
+	fs.Cond = cond
+	fs.Body = &ast.BlockStmt{Lbrace: fs.Body.Lbrace, List: fs.Body.List[1:], Rbrace: fs.Body.Rbrace}
+	return true
+}
+
 func (p *Prog) normalizeList(list []ast.Stmt) int {
 	n := 0
 	for i, st := range list {
@@ -45,7 +85,10 @@ func (p *Prog) normalizeList(list []ast.Stmt) int {
 		if !ok {
 			continue
 		}
-		rs := p.indexLoopAsRange(fs)
+		if p.loopWithLeadingBreak(fs) {
+			n++
+		}
+		rs := p.indexLoopAsRange(fs, list[:i])
 		if rs == nil {
 			continue
 		}
@@ -69,7 +112,7 @@ func (p *Prog) normalizeList(list []ast.Stmt) int {
 	return n
 }
 
-func (p *Prog) indexLoopAsRange(fs *ast.ForStmt) *ast.RangeStmt {
+func (p *Prog) indexLoopAsRange(fs *ast.ForStmt, before []ast.Stmt) *ast.RangeStmt {
 	init, ok := fs.Init.(*ast.AssignStmt)
 	if !ok || init.Tok != token.DEFINE || len(init.Lhs) != 1 || len(init.Rhs) != 1 {
 		return nil
@@ -92,19 +135,53 @@ func (p *Prog) indexLoopAsRange(fs *ast.ForStmt) *ast.RangeStmt {
 	if c, ok := cond.X.(*ast.Ident); !ok || p.ObjOf(c) != iObj {
 		return nil
 	}
-	call, ok := cond.Y.(*ast.CallExpr)
-	if !ok || len(call.Args) != 1 || p.CalleeName(call) != "builtin.len" {
+	// the bound: len(X), or a local set to len(X) by an earlier statement of the same list and not touched since
+	lenArg := func(e ast.Expr) ast.Expr {
+		call, ok := unparen(e).(*ast.CallExpr)
+		if !ok || len(call.Args) != 1 || p.CalleeName(call) != "builtin.len" {
+			return nil
+		}
+		return unparen(call.Args[0])
+	}
+	xExpr := lenArg(cond.Y)
+	var boundObj types.Object
+	if xExpr == nil {
+		nID, ok := unparen(cond.Y).(*ast.Ident)
+		if !ok {
+			return nil
+		}
+		boundObj = p.ObjOf(nID)
+		for j := len(before) - 1; j >= 0 && xExpr == nil; j-- {
+			as, ok := before[j].(*ast.AssignStmt)
+			if ok && as.Tok == token.DEFINE && len(as.Lhs) == 1 && len(as.Rhs) == 1 {
+				if id, ok := as.Lhs[0].(*ast.Ident); ok && p.Info.Defs[id] == boundObj {
+					xExpr = lenArg(as.Rhs[0])
+					before = before[j+1:]
+					break
+				}
+			}
+		}
+		if xExpr == nil {
+			return nil
+		}
+	} else {
+		before = nil
+	}
+	if !pureTag(xExpr) {
 		return nil
 	}
-	xID, ok := call.Args[0].(*ast.Ident)
-	if !ok {
+	if _, isSlice := p.TypeOf(xExpr).Underlying().(*types.Slice); !isSlice {
 		return nil
 	}
-	xObj, ok := p.ObjOf(xID).(*types.Var)
-	if !ok || xObj.IsField() || xObj.Pkg() == nil || xObj.Parent() == xObj.Pkg().Scope() {
-		return nil
+	var xObj types.Object // the slice variable when it is a plain local
+	localX := false
+	if xID, ok := xExpr.(*ast.Ident); ok {
+		if v, ok := p.ObjOf(xID).(*types.Var); ok && !v.IsField() && v.Pkg() != nil && v.Parent() != v.Pkg().Scope() {
+			xObj, localX = v, true
+		}
 	}
-	if _, isSlice := xObj.Type().Underlying().(*types.Slice); !isSlice {
+	xField := p.FieldOf(xExpr)
+	if !localX && xField == nil {
 		return nil
 	}
 	post, ok := fs.Post.(*ast.IncDecStmt)
@@ -114,47 +191,82 @@ func (p *Prog) indexLoopAsRange(fs *ast.ForStmt) *ast.RangeStmt {
 	if c, ok := post.X.(*ast.Ident); !ok || p.ObjOf(c) != iObj {
 		return nil
 	}
-	// neither the index nor the slice variable is modified in the body
+	// neither the index, the bound nor the slice is modified (in the body, or between the bound's definition and the loop)
 	modified := false
-	ast.Inspect(fs.Body, func(y ast.Node) bool {
-		isVar := func(e ast.Expr) bool {
-			id, ok := unparen(e).(*ast.Ident)
-			return ok && (p.ObjOf(id) == iObj || p.ObjOf(id) == types.Object(xObj))
+	isVar := func(e ast.Expr) bool {
+		e = unparen(e)
+		if id, ok := e.(*ast.Ident); ok {
+			o := p.ObjOf(id)
+			return o == iObj || (xObj != nil && o == xObj) || (boundObj != nil && o == boundObj)
 		}
-		switch z := y.(type) {
-		case *ast.AssignStmt:
-			for _, l := range z.Lhs {
-				if isVar(l) {
+		if xField != nil && p.FieldOf(e) == xField {
+			return true
+		}
+		return false
+	}
+	check := func(n ast.Node) {
+		ast.Inspect(n, func(y ast.Node) bool {
+			switch z := y.(type) {
+			case *ast.AssignStmt:
+				for _, l := range z.Lhs {
+					if isVar(l) {
+						modified = true
+					}
+				}
+			case *ast.IncDecStmt:
+				if isVar(z.X) {
+					modified = true
+				}
+			case *ast.UnaryExpr:
+				if z.Op == token.AND && isVar(z.X) {
+					modified = true
+				}
+			case *ast.RangeStmt:
+				if (z.Key != nil && isVar(z.Key)) || (z.Value != nil && isVar(z.Value)) {
+					modified = true
+				}
+			case *ast.CallExpr:
+				if !localX {
+					// a slice held in a field: a call into the analysed packages (or a dynamic call) could replace it
+					o := p.Callee(z)
+					if o == nil {
+						if _, isConv := p.Info.Types[z.Fun]; !(isConv && p.Info.Types[z.Fun].IsType()) {
+							if _, isBuiltin := typeutilCalleeBuiltin(p, z); !isBuiltin {
+								modified = true
+							}
+						}
+					} else if o.Pkg() != nil && strings.HasPrefix(o.Pkg().Path(), icePath) {
+						modified = true
+					} else if sig, ok := o.Type().(*types.Signature); ok && sig.Recv() != nil {
+						if _, isIface := sig.Recv().Type().Underlying().(*types.Interface); isIface {
+							modified = true
+						}
+					}
+				}
+			case *ast.GoStmt, *ast.DeferStmt:
+				if !localX {
 					modified = true
 				}
 			}
-		case *ast.IncDecStmt:
-			if isVar(z.X) {
-				modified = true
-			}
-		case *ast.UnaryExpr:
-			if z.Op == token.AND && isVar(z.X) {
-				modified = true
-			}
-		case *ast.RangeStmt:
-			if (z.Key != nil && isVar(z.Key)) || (z.Value != nil && isVar(z.Value)) {
-				modified = true
-			}
-		}
-		return !modified
-	})
+			return !modified
+		})
+	}
+	check(fs.Body)
+	for _, st := range before {
+		check(st)
+	}
 	if modified {
 		return nil
 	}
-	rs := &ast.RangeStmt{For: fs.For, Key: iID, Tok: token.DEFINE, TokPos: iID.End(), X: xID, Body: fs.Body}
+	rs := &ast.RangeStmt{For: fs.For, Key: iID, Tok: token.DEFINE, TokPos: iID.End(), X: xExpr, Body: fs.Body}
 	// x := xs[i] as the first statement is the range value
 	if len(fs.Body.List) > 0 {
 		if as, ok := fs.Body.List[0].(*ast.AssignStmt); ok && as.Tok == token.DEFINE && len(as.Lhs) == 1 && len(as.Rhs) == 1 {
 			if v, ok := as.Lhs[0].(*ast.Ident); ok && v.Name != "_" {
 				if ix, ok := as.Rhs[0].(*ast.IndexExpr); ok {
-					bx, ok1 := ix.X.(*ast.Ident)
 					bi, ok2 := ix.Index.(*ast.Ident)
-					if ok1 && ok2 && p.ObjOf(bx) == types.Object(xObj) && p.ObjOf(bi) == iObj {
+					sameX := p.Canon(ix.X) == p.Canon(xExpr)
+					if ok2 && sameX && p.ObjOf(bi) == iObj {
 						rs.Value = v
 						rs.Body = &ast.BlockStmt{Lbrace: fs.Body.Lbrace, List: fs.Body.List[1:], Rbrace: fs.Body.Rbrace}
 					}
